@@ -20,6 +20,7 @@ from decimal import Decimal
 from fractions import Fraction
 
 from .. import drive as Dr
+from .. import opsgen as G
 from .. import worlds as W
 from ..oracles import squeeth as O
 
@@ -201,7 +202,11 @@ class Case:
         mon = self.mon
         st = Dr.make_script_strategy({("*", "on_bar"): [self.on_bar], ("*", "after_bar"): [self.after_bar]}, self)
         big = Decimal(10) ** 6
-        act = Dr.build_actuator([self.um, self.sm], self.w.prices(), None, {self.weth: big, self.osqth: big}, st, f"{self.step}min")
+        # one wallet in four is funded with WETH only: oSQTH gets its wallet entry when it is first minted
+        assets = {self.weth: big} if self.rng.random() < 0.25 else {self.weth: big, self.osqth: big}
+        if self.osqth not in assets:
+            mon.hit("wallets-without-osqth-entry")
+        act = Dr.build_actuator([self.um, self.sm], self.w.prices(), None, assets, st, f"{self.step}min")
         self.broker = act.broker
         cb = self.sm._record_action_callback
 
@@ -236,7 +241,7 @@ class Case:
             if pos is not None:
                 lp = self.lp_amounts(pos)
             vaults[vk.id] = VS(F(v.collateral_amount), F(v.osqth_short_amount), pos, lp)
-        wallet = (F(self.broker.get_token_balance(self.weth)), F(self.broker.get_token_balance(self.osqth)))
+        wallet = (F(G.bal(self.broker, self.weth)), F(G.bal(self.broker, self.osqth)))  # a token never credited has no entry
         return vaults, wallet
 
     def lp_amounts(self, pos):
@@ -517,6 +522,15 @@ class Case:
         has_lp = post.lp is not None or vs.lp is not None
         safe_v, dust_v = self.verdicts(post.coll, post.short, post.lp)
         expect = O.both(safe_v, dust_v)
+        # an operation that needs (nearly) more WETH / oSQTH than the wallet holds may be refused for that, and the wallet's
+        # dust rule (Asset.sub: a remainder under 1e-5 of the balance is dropped) may round what it moves: no verdict on
+        # acceptance, no exact-move check (C03/C04 own wallet shortage)
+        need_weth = F(dep) if dep else Fraction(0)
+        need_osq = min(F(burn), vs.short) if burn else Fraction(0)
+        wallet_bound = need_weth > pre_w[0] * (1 - Fraction(1, 10**4)) or need_osq > pre_w[1] * (1 - Fraction(1, 10**4))
+        if wallet_bound:
+            expect = O.EITHER
+            mon.hit("wallet-bound-ops")
         if kind == "open_by_rate":
             # amount chosen by the code: demand a verdict only when it is far from both lines
             far = self.verdicts(post.coll, post.short * (1 + Fraction(1, 10**6)), post.lp), self.verdicts(post.coll, post.short * (1 - Fraction(1, 10**6)), post.lp)
@@ -561,7 +575,17 @@ class Case:
                 )
             elif res.site and not isinstance(res.exc, (RuntimeError, AssertionError)):
                 mon.violation("squeeth", kind, "raises", f"{type(res.exc).__name__}:{res.site}", detail_head + repr(res.exc))
-            return  # state re-read at the next operation (C04 owns atomicity)
+            # a refused request moves no oSQTH and no ETH (C04 owns atomicity in general; the amounts are this property's)
+            # (not for withdraw_direct: that drives the private _withdraw_collateral, whose callers wrap it in a transaction)
+            mon.ev()
+            if kind != "withdraw_direct" and (post_w != pre_w or {i: v.key() for i, v in post_v.items()} != {i: v.key() for i, v in pre_v.items()}):
+                mon.violation(
+                    "squeeth", kind, "moved-amount-on-refused-request", f"{lpflag}:{res.site}",
+                    detail_head + f"refused ({res.exc!r}) but wallet (WETH, oSQTH) went {tuple(float(x) for x in pre_w)} -> "
+                    f"{tuple(float(x) for x in post_w)}, vaults {sorted(pre_v)} -> {sorted(post_v)}",
+                    {"case": self.c, "bar": self.bar, "trace": self.trace[-4:]},
+                )
+            return  # state re-read at the next operation
 
         # ---- accepted
         tgt = vid if vid is not None else (new_ids[0] if len(new_ids) == 1 else None)
@@ -608,7 +632,7 @@ class Case:
                   ("wallet-weth", d_weth, -stated["coll"]), ("wallet-osqth", d_osq, stated["short"])]
         for nm, got, want in checks:
             mon.ev()
-            if over:
+            if over or wallet_bound:
                 continue
             if not O.close(got, want, AMT_REL):
                 mon.violation(
